@@ -47,7 +47,7 @@ def strategy(tier):
     from vlib import tcpcl_machine as tm, tcpcl_agentworld as aw
     contact = st.tuples(st.sampled_from(aw.STATES), st.booleans()).map(list)
     agent = st.fixed_dictionaries({'kind': st.just('agent'), 'contacts': st.lists(contact, min_size=1, max_size=4),
-                                   'action': st.sampled_from(['shutdown', 'shutdown', 'stop'])})
+                                   'action': st.sampled_from(['shutdown', 'shutdown', 'stop']), 'late_accept': st.booleans()})
     return st.one_of(tm.cases(max_ops=14 if tier == 'quick' else 24, terminate=True, closes=True, vanish=True),
                      tm.cases(max_ops=14 if tier == 'quick' else 24, terminate=True, closes=True, vanish=True),
                      tm.cases(max_ops=14 if tier == 'quick' else 24, terminate=True, closes=True, vanish=True), agent)
@@ -244,6 +244,8 @@ def agent_cases(max_contacts):
         for combo in itertools.product(kinds, repeat=count):
             for action in ('shutdown', 'stop'):
                 yield {'kind': 'agent', 'contacts': [list(c) for c in combo], 'action': action}
+            if count == 1:
+                yield {'kind': 'agent', 'contacts': [list(c) for c in combo], 'action': 'shutdown', 'late_accept': True}
 
 
 def execute_agent(case):
@@ -258,6 +260,12 @@ def execute_agent(case):
     for _ in range(50):
         if not world.end.ctx.iterate():
             break
+    late = None
+    if case.get('late_accept') and action == 'shutdown' and not world.stops:
+        # while the agent waits for its sessions to end, a further peer connects to one of its listening sockets
+        late = world.late_accept()
+        desc += ' + a peer connecting during the wait'
+        out.label('late-accept')
     if action == 'stop':
         left = [c.index for c in world.contacts if not c.real_sock.closed]
         if left:
@@ -275,7 +283,7 @@ def execute_agent(case):
             out.label('shutdown-error-reply')
         elif ret and not world.stops:
             out.fail('shutdown-claims-stopped', 'shutdown() returned True (stopped immediately) but the agent did not stop (%s)' % desc)
-        left = [(c.index, c.state, c.hdl._state) for c in world.contacts if not c.real_sock.closed]
+        left = [(c.index, c.state, c.hdl._state if c.hdl is not None else None) for c in world.contacts if not c.real_sock.closed]
         if left:
             out.fail('shutdown-leaves-contact-open', 'after shutdown() and full cooperation of every peer the contacts %s '
                      '(index, state at shutdown, state now) are still open (%s; shutdown returned %r)' % (left, desc, ret))
